@@ -79,13 +79,12 @@ Definition corr_step (f : req) (s : sk) (real : res graph) : list nat :=
   | _, _ => [4]
   end.
 
+(* (tags 51-54 and 62 belonged to conjuncts of defects that are fixed in /repo) *)
 Definition guard_tags (f : req) (s : sk) : list nat :=
-  tag (g_inst_depot_dosed f s) 51 ++ tag (g_inst_not_stale f s) 52 ++ tag (g_seq_has_depot f s) 53
-  ++ tag (g_seq_depot_dosed f s) 54 ++ tag (g_zo_depot_dosed f s) 55 ++ tag (g_fo_no_chain f s) 56
+  tag (g_zo_depot_dosed f s) 55 ++ tag (g_fo_no_chain f s) 56
   ++ tag (g_fo_seq_chain f s) 57 ++ tag (g_fo_keeps_lag f s) 58 ++ tag (g_no_param_clash f s) 59
-  ++ tag (g_transit_no_lag f s) 60 ++ tag (g_no_single_transit f s) 61 ++ tag (g_periph_le9 f s) 62
+  ++ tag (g_transit_no_lag f s) 60 ++ tag (g_no_single_transit f s) 61
   ++ tag (g_rem_periph_rates f s) 63 ++ tag (g_keeps_bio f s) 64.
-
 
 (* Environment conditions under which the STATEMENT layers (not modelled) are known to fail; they are
    not conjuncts of `guard` (the graph model has no counter-model for them), only tags that let the
